@@ -600,6 +600,164 @@ func runDecoderStability(c *core.Case) {
 	c.Sample(len(data)/4096, map[string]any{"sub": "decoder-stability", "records": n, "stream_bytes": len(data)})
 }
 
+// zero-copy decoders: with any non-empty subset of the DontCopy options the decoded values may
+// point into the Decoder's own buffer - and into nothing else: once the stream has ended, nothing
+// the library does later (other Decoders, on this or other goroutines) may change them.
+func runZeroCopyDecoders(c *core.Case) {
+	c.Journal("zero-copy-decoders")
+	r := c.Rng
+	m := 1 + c.Index%7
+	var stream bytes.Buffer
+	var want []recT
+	n := r.Range(1, 40)
+	for i := 0; i < n; i++ {
+		rec := recT{ID: r.ASCIIString(2, 60), Num: json.Number(fmt.Sprint(r.Int64())), Raw: json.RawMessage(`{"k":"` + r.ASCIIString(0, 30) + `"}`),
+			Tags: map[string]string{r.ASCIIString(2, 9): r.ASCIIString(0, 40)}, Any: []any{r.ASCIIString(2, 20)}, Blob: r.Bytes(r.Intn(40))}
+		b, _ := stdjson.Marshal(rec)
+		stream.Write(b)
+		stream.WriteString(core.Pick(r, []string{"\n", " ", ""}))
+		var w recT
+		stdjson.Unmarshal(b, &w)
+		want = append(want, w)
+	}
+	data := stream.Bytes()
+	dec := json.NewDecoder(&chunked{data: data, step: core.Pick(r, []int{1 << 20, 4096, 777})})
+	var names []string
+	if m&1 != 0 {
+		dec.DontCopyString()
+		names = append(names, "DontCopyString")
+	}
+	if m&2 != 0 {
+		dec.DontCopyNumber()
+		names = append(names, "DontCopyNumber")
+	}
+	if m&4 != 0 {
+		dec.DontCopyRawMessage()
+		names = append(names, "DontCopyRawMessage")
+	}
+	var got []recT
+	for {
+		var v recT
+		err := dec.Decode(&v)
+		if err == io.EOF {
+			break
+		}
+		if err != nil {
+			c.Violation("zero-copy-decoders", "decode-error", fmt.Sprintf("Decoder (%v) failed on a valid stream of %d records: %v", names, n, err), nil)
+			return
+		}
+		got = append(got, v)
+		if len(got) > n {
+			break
+		}
+	}
+	// later library activity: other decoders over other streams, here and on other goroutines
+	for k := 0; k < 3; k++ {
+		other := json.NewDecoder(strings.NewReader(strings.Repeat(`{"ID":"`+strings.Repeat("Z", 50+k)+`","Num":0,"Raw":[0,0,0,0]} `, 40)))
+		if k == 1 {
+			other.DontCopyString()
+		}
+		for {
+			var v recT
+			if other.Decode(&v) != nil {
+				break
+			}
+		}
+	}
+	burst(r, 1)
+	if len(got) != len(want) {
+		c.Violation("zero-copy-decoders", "count-diff", fmt.Sprintf("%d records decoded, %d expected", len(got), len(want)), nil)
+		return
+	}
+	for i := range got {
+		if !reflect.DeepEqual(got[i], want[i]) {
+			c.Violation("zero-copy-decoders|"+strings.Join(names, "+"), "earlier-value-changed", fmt.Sprintf("record #%d of %d decoded by a Decoder with %v changed after the stream had ended and other Decoders ran: now %s, expected %s", i, n, names, show(got[i]), show(want[i])), map[string]any{"records": n, "flags": names})
+			return
+		}
+	}
+	c.Count("zero-copy-decoder.records", n)
+	c.Distinct(core.Mix(core.HashBytes(data), uint64(m)), true)
+}
+
+// lent marshaler output: the slice MarshalJSON / MarshalText returns belongs to the program (a
+// cached encoding, part of a bigger buffer); the library may read it during the call, never
+// write to it or keep it.
+type lentJSON struct{ b []byte }
+
+func (l lentJSON) MarshalJSON() ([]byte, error) { return l.b, nil }
+
+type lentText struct{ b []byte }
+
+func (l *lentText) MarshalText() ([]byte, error) { return l.b, nil }
+
+func runLentOutput(c *core.Case) {
+	c.Journal("lent-marshaler-output")
+	r := c.Rng
+	docs := []string{`{"cached":true,"n":[1,2,3]}`, `"plain"`, `[1,2,3]`, `12345`, `{"a":"` + r.ASCIIString(0, 200) + `"}`, `{"k": [1, 2] }`, `"a<b"`, `null`}
+	doc := docs[c.Index%len(docs)]
+	backing := make([]byte, len(doc)+128)
+	for i := range backing {
+		backing[i] = 0xA5
+	}
+	copy(backing[32:], doc)
+	lent := backing[32 : 32+len(doc)] // spare capacity behind it
+	snap := append([]byte(nil), backing...)
+	text := make([]byte, 96)
+	for i := range text {
+		text[i] = 0x5A
+	}
+	copy(text[16:], "text-key")
+	lt := &lentText{text[16:24]}
+	tsnap := append([]byte(nil), text...)
+	values := []any{lentJSON{lent}, &lentJSON{lent}, []any{lentJSON{lent}}, map[string]any{"k": lentJSON{lent}}, struct{ A lentJSON }{lentJSON{lent}}, lt, map[string]*lentText{"v": lt}, []*lentText{lt}}
+	v := values[(c.Index/len(docs))%len(values)]
+	how := (c.Index / (len(docs) * len(values))) % 3
+	switch how {
+	case 0:
+		json.Marshal(v)
+	case 1:
+		var buf bytes.Buffer
+		e := json.NewEncoder(&buf)
+		e.Encode(v)
+		e.Encode(v)
+	default:
+		json.Append(make([]byte, 0, 8), v, json.AppendFlags(c.Index%8))
+	}
+	check := func(when string) bool {
+		if !bytes.Equal(backing, snap) {
+			i := 0
+			for backing[i] == snap[i] {
+				i++
+			}
+			c.Violation("lent-marshaler-output|MarshalJSON", "lent-memory-written", fmt.Sprintf("%s the buffer that holds the slice returned by MarshalJSON (%q at 32..%d) differs at offset %d: %q", when, doc, 32+len(doc), i, backing[max(0, i-8):min(len(backing), i+24)]), map[string]any{"doc": doc, "how": how})
+			return false
+		}
+		if !bytes.Equal(text, tsnap) {
+			c.Violation("lent-marshaler-output|MarshalText", "lent-memory-written", fmt.Sprintf("%s the buffer that holds the slice returned by MarshalText changed: %q", when, text), map[string]any{"how": how})
+			return false
+		}
+		return true
+	}
+	if !check("right after the call") {
+		return
+	}
+	// later calls on this goroutine (the pools are per P) and on others
+	for k := 0; k < 4; k++ {
+		json.Marshal(burstValues[(c.Index+k)%len(burstValues)])
+		var buf bytes.Buffer
+		json.NewEncoder(&buf).Encode(burstValues[(c.Index+k+1)%len(burstValues)])
+	}
+	if !check("after later Marshal / Encode calls on the same goroutine") {
+		return
+	}
+	burst(r, 1)
+	if !check("after later library calls on several goroutines") {
+		return
+	}
+	c.Count("lent-output.checked", 1)
+	c.Distinct(uint64(c.Index), true)
+}
+
 type chunked struct {
 	data []byte
 	pos  int
@@ -734,12 +892,14 @@ func runTokenizerOwnership(c *core.Case) {
 func init() {
 	core.Register(&core.Monitor{
 		Prop:    "C10",
-		Rule:    "decode-ownership: a document (a struct covering strings, a >64-byte field name, Number, RawMessage, []byte, five map kinds, interfaces, ',string'; or a generated type), optionally re-spelled with upper-case keys and \\u escapes or mutated, is placed inside a canary-filled backing array and parsed under a rotating subset of the 9 public ParseFlags: the whole backing array must be unchanged; every string/Number/RawMessage/[]byte/map-key leaf (len>=2) of the result is classified by address as inside or outside the input buffer and may be inside only under its own DontCopy flag; without zero-copy flags the input is then overwritten with 0xAA, a burst of Marshal/Encode/Unmarshal/Tokenizer/Decoder calls runs on 5 goroutines and the value must still equal a reference decode. marshal-stability: results of Marshal/Encoder are snapshotted, concurrently read while bursts run (race build) and re-compared; re-marshalling gives identical bytes. decoder-stability: 20-400 records (some 4-40 KB), or 200-3000 bare values decoded into top-level *RawMessage / *Number / *string / *any targets, through Decoder with chunked readers; every earlier record must keep its contents after all later Decode calls. key-fragments: struct types whose field names need HTML escaping are encoded eight times in a random order of EscapeHTML on/off, every output compared with encoding/json's for that mode. tokenizer-ownership: String()/Unquote results and AppendUnescape. Distinct by (document, flags).",
+		Rule:    "decode-ownership: a document (a struct covering strings, a >64-byte field name, Number, RawMessage, []byte, five map kinds, interfaces, ',string'; or a generated type), optionally re-spelled with upper-case keys and \\u escapes or mutated, is placed inside a canary-filled backing array and parsed under a rotating subset of the 9 public ParseFlags: the whole backing array must be unchanged; every string/Number/RawMessage/[]byte/map-key leaf (len>=2) of the result is classified by address as inside or outside the input buffer and may be inside only under its own DontCopy flag; without zero-copy flags the input is then overwritten with 0xAA, a burst of Marshal/Encode/Unmarshal/Tokenizer/Decoder calls runs on 5 goroutines and the value must still equal a reference decode. marshal-stability: results of Marshal/Encoder are snapshotted, concurrently read while bursts run (race build) and re-compared; re-marshalling gives identical bytes. decoder-stability: 20-400 records (some 4-40 KB), or 200-3000 bare values decoded into top-level *RawMessage / *Number / *string / *any targets, through Decoder with chunked readers; every earlier record must keep its contents after all later Decode calls. key-fragments: struct types whose field names need HTML escaping are encoded eight times in a random order of EscapeHTML on/off, every output compared with encoding/json's for that mode. tokenizer-ownership: String()/Unquote results and AppendUnescape. Distinct by (document, flags). zero-copy-decoders: a Decoder with each non-empty subset of the three DontCopy options over a short stream read to io.EOF; afterwards other Decoders run on this and other goroutines and the decoded records must keep their contents. lent-marshaler-output: MarshalJSON / MarshalText return a slice of a bigger canary-filled buffer with spare capacity (top level, by pointer, in slices, maps and fields) through Marshal, Encoder.Encode twice and Append: the buffer is unchanged right after the call, after later calls on the same goroutine and after a burst on others.",
 		Trusted: []string{"address-range classification via reflect/unsafe in the harness", "encoding/json for reference decodes", "Go race detector for library writes into handed-out memory (race build)"},
 		Subs: []core.Sub{
 			{Name: "decode-ownership", N: core.Const(6000, 300000), Run: runDecodeOwnership},
 			{Name: "marshal-stability", N: core.Const(1200, 50000), Run: runMarshalStability},
 			{Name: "decoder-stability", N: core.Const(500, 20000), Run: runDecoderStability},
+			{Name: "zero-copy-decoders", N: core.Const(350, 14000), Run: runZeroCopyDecoders},
+			{Name: "lent-marshaler-output", N: core.Const(192, 1920), Run: runLentOutput},
 			{Name: "key-fragments", N: core.Const(600, 20000), Run: runKeyFragments},
 			{Name: "tokenizer-ownership", N: core.Const(4000, 200000), Run: runTokenizerOwnership},
 		},
